@@ -10,7 +10,7 @@ World::World(const WorldCfg &c, EventLog &l, RunStats &s) : cfg(c), log(l), stat
     for (auto &t : utils_touched) t = false;
     pool();
     base_live = asim::live_blocks();
-    install_hooks(cfg.hookcfg);
+    if (!cfg.shared_world) install_hooks(cfg.hookcfg);
 }
 World::~World() { abandon(); }
 void World::abandon() {
@@ -45,7 +45,7 @@ void World::discard(const std::string &why) {
 }
 void World::mismatch(const std::string &oracle, const std::string &msg) {
     if (cfg.log_mismatch) {
-        log.add("MISMATCH " + oracle + ": " + msg);
+        log.add("MISMATCH " + oracle);  // no message: block serials and the like differ between solo and concurrent runs
         Outcome o; o.kind = Outcome::DISCARD; o.oracle = "mismatch-logged"; o.msg = msg; o.step = cur_step;
         throw Stop{o};
     }
@@ -119,7 +119,7 @@ uint64_t World::state_hash() const {
 }
 void World::check_all(const char *when) {
     // ledger first: a wrong release is reported as such, not as whatever it corrupts later
-    std::string v = asim::take_violation();
+    std::string v = cfg.shared_world ? std::string() : asim::take_violation();
     if (!v.empty()) {
         if (cfg.judge_memory || cfg.judge_hooks) violation(cfg.judge_hooks ? "hooks-ledger" : "ledger", v + " [" + when + "]");
         discard("ledger violation outside this property's oracles: " + v);
@@ -143,10 +143,11 @@ void World::check_all(const char *when) {
 void World::exec(const Step &st, int index) {
     cur_step = index;
     cur_judged = cfg.judged ? cfg.judged(st.op) : true;
+    if (index == force_judged_step) cur_judged = true;
     failed_cleanly = false;
     nt_flag = false;
     for (auto &t : touched) t = false;
-    if (live_judged) *live_judged = cur_judged ? 1 : 0;
+    if (live_judged) *live_judged = (cur_judged || index >= crash_judged_from) ? 1 : 0;
     asim::set_step_index(index);
     asim::begin_step();
     if (cfg.fault_mode && index == armed_step && arm_fail_k > 0) asim::arm_fail(arm_fail_k);
@@ -180,6 +181,7 @@ void World::finish() {
         if (!any) break;
     }
     for (int i = 0; i < NSLOTS; i++) if (slots[i]) discard("model bookkeeping: a root is still frozen at the end of the history");
+    if (cfg.shared_world) { log.add("finish"); return; }
     std::string v = asim::take_violation();
     if (!v.empty()) {
         if (cfg.judge_memory || cfg.judge_hooks) violation(cfg.judge_hooks ? "hooks-ledger" : "ledger", v + " [final delete]");
